@@ -38,13 +38,13 @@ CFG = {
         "whole set removed": r"^tremove_range .* => [1-9]\d*$",
     },
     "gaps": [
-        "C10_*_partial theorems assume the 32-bit refinement facts bundled in `Kernel32` (Lemmas/TreemapKernel32.lean: insert/remove/insert_range/remove_range/push/push_unchecked/contains/len/min/max/rank/select/is_empty of RoaringBitmap refine the Spec operations on WF values) - named hypotheses, to be discharged by the 32-bit core proofs (C01/C07) at merge",
-        "proved (given Kernel32): insert, remove, contains, extend/from_iter, push, clear/new, len, is_empty, min, max, the abstraction (sortedness, membership through the partition directory) and split/join arithmetic (no hypotheses). NOT yet proved: insert_range, remove_range, append/from_sorted_iter, rank, select, from_bitmaps and the history induction (C10_history) - these are decided by the correspondence check (MODEL = SPEC column on every generated case) only",
-        "insert_range over >= 2 whole partitions (RoaringBitmap::full() values) is neither proved yet nor executed by the correspondence (a 2^32-element value does not fit the list model)",
+        "Kernel32 (the 32-bit refinement facts) is discharged: Treemap.kernel32 (Lemmas/TreemapKernel.lean) proves it for the mirrored 32-bit model with WF := Bitmap.WF from the core library (C01 mutators, C07 queries, RoaringBitmap::full()). Unconditional theorems (hypothesis: TWF t = keys strictly ascending u32, every partition Bitmap.WF and non-empty): insert, remove, contains, extend/from_iter, push, push_unchecked, insert_range (1, 2 and >= 3 partitions, whole middle partitions = RoaringBitmap::full()), remove_range, append/from_sorted_iter, from_bitmaps, clear/new, len, is_empty, min, max, rank, select, and the history induction C10_step / C10_run / C10_history over all of these (no panic in either build configuration; every returned value is the abstract one). The C10_*_partial forms (arbitrary Kernel32) are kept",
+        "NOT proved: is_full and the derived == (Treemap.eq) - decided by the correspondence check only",
+        "the model's insert_range counter is a Nat (the u64 counter of the code overflows only when all 2^64 values are new, see C16); insert_range over >= 2 whole partitions is proved but not executed by the correspondence (a 2^32-element value does not fit the list model)",
     ],
     "assumptions": [
         "treemap correspondence bounds: <= 5 partitions (keys 0,1,3,4,u32::MAX), ranges span <= ~70000 values and touch <= 2 partitions (remove_range may span more), never a whole partition",
     ],
-    "level_text": "Theorems (Lean 4, kernel-checked) that the model of every RoaringTreemap mutator and query refines the abstract operation on strictly ascending lists of u64 — the partition directory (split/join at 2^32, sorted association list, partition creation/removal) is proved outright, the per-partition 32-bit facts are named hypotheses (Kernel32) discharged by the 32-bit core; the model is tied to the Rust source by running both on the same generated histories in two build profiles.",
-    "level_note": "Trusted: Lean kernel; the hand-written model mirrors treemap/inherent.rs (checked by correspondence on generated histories only); Spec.lean as the meaning of 'set of u64'; BTreeMap is modelled as a key-sorted association list. *_partial theorems depend on the Kernel32 hypothesis bundle (32-bit refinement facts). Whole-partition insert_range is not executed on the Lean side.",
+    "level_text": "Theorems (Lean 4, kernel-checked, unconditional) that the model of every RoaringTreemap mutator and query (except is_full and ==) refines the abstract operation on strictly ascending lists of u64, for every well-formed treemap and every u64 argument, lifted to every finite history from new() — the partition directory (split/join at 2^32, sorted association list, partition creation/removal, RoaringBitmap::full() middle partitions) is proved here, the per-partition 32-bit facts come from the 32-bit core theorems (C01/C07); the model is tied to the Rust source by running both on the same generated histories in two build profiles.",
+    "level_note": "Trusted: Lean kernel; the hand-written model mirrors treemap/inherent.rs (checked by correspondence on generated histories only); Spec.lean as the meaning of 'set of u64'; BTreeMap is modelled as a key-sorted association list. is_full and == are checked by correspondence only. Whole-partition insert_range is proved but not executed on the Lean side.",
 }
